@@ -107,6 +107,9 @@ package xml
 //@   loop 2 decreases end
 
 //@ func Lexer.Next
+// an embedded NUL is reported at the NUL itself
+//@   ensures[F,C15] @err-at-nul: l.err != old(l.err) ==> l.err != nil && result0 == ErrorToken && errOff(l.err) == l.r.pos && l.r.buf[l.r.pos] == 0 && l.r.pos < len(l.r.buf)-1
+//@   loop * candidate[F] l.err == old(l.err)
 //@   preserves[S] l != nil && l.r != nil && inputInv(l.r) && l.r.pos >= old(l.r.pos)
 //@   requires[S] !l.inTag ==> l.r.start == l.r.pos
 //@   ensures[S]  !l.inTag ==> l.r.start == l.r.pos
